@@ -7,6 +7,30 @@ VERIF = os.path.dirname(os.path.dirname(os.path.abspath(__file__)))
 props = [json.loads(l) for l in open(os.path.join(VERIF, "properties.jsonl"))]
 
 CLAIMED = {
+    "C15": dict(
+        category="proof",
+        text="Closed theorems: the expansion order of the aggregation dictionary is a complete topological listing of its keys "
+             "(Kahn soundness), and ANY dependency cycle among the keys makes the expansion fail, so no result is produced. The "
+             "linearity / path-sum statement is an executable specification (paths, spec_value) compared inside Coq with the real "
+             "add_aggregated_resources on every graph over 3 names (quick) / 4 names (thorough), both removal modes, random subsets "
+             "of resources present, plus random graphs to 6 names with symbolic multipliers; the caller's dictionary must be left "
+             "unchanged. Partial: expand = path-sum is not yet proved as a theorem.",
+        design_ref="DESIGN.md section 5 C15",
+        note="Trusted: Coq kernel; hand model of transform.py tied by the exhaustive/random stream; graphlib.TopologicalSorter.",
+        technique="Coq proof of topological-order soundness and cycle rejection + exhaustive small-graph differential check against a path-sum spec",
+    ),
+    "C16": dict(
+        category="proof",
+        text="Closed theorems on the wire model of calculate_highwater: the loop invariant (running flow before child k = total size of "
+             "the wires alive there), hence the list of watermarks the code maximises over equals, element by element, the list of "
+             "cuts (before the first child, bypassing wires + child highwater, after the last child), and the maximum dominates each "
+             "cut. The stream compares every node's real qubit_highwater with the port-level model and with the wire-level cut "
+             "specification at natural-number points.",
+        design_ref="DESIGN.md section 5 C16",
+        note="Trusted: Coq kernel; the identification of port sums with wire sums (full single wiring, equal ends: C02) is an assumption of "
+             "the abstract theorem, exercised by the stream; non-negative sizes.",
+        technique="Coq loop-invariant proof on a wire model + differential check of the real highwater against the cut specification",
+    ),
     "C08": dict(
         category="proof",
         text="Closed theorems for the pieces of the accumulation: the value installed by default propagation reads as the plain "
